@@ -234,12 +234,12 @@ def _regroup(items):
 def ref_expected(api, a, now_ms):
     """The request as refcodec would write it for these arguments: (api_key, version, corr, client_id str, body),
     or None when the arguments are outside the protocol's value space (null in a non-nullable field,
-    duplicate (topic, partition), version the client does not implement...)."""
+    version the client does not implement...); a repeated (topic, partition) is in range (both payloads expected)."""
     from harness.sim import refcodec as RC
 
     def topic_list(rows, mk):
         keys = [(r[0], r[1]) for r in rows]
-        if any(t is None for t, _ in keys) or len(set(keys)) != len(keys):
+        if any(t is None for t, _ in keys):  # a repeated (topic, partition) is a value: both payloads are expected
             return None
         return [{"topic": _s(t), "partitions": ps} for t, ps in _regroup([(r[0], mk(r)) for r in rows])]
 
@@ -346,7 +346,7 @@ def spec_request(api, a, now_ms):
     caller's arguments independently of refcodec's dict; None when the arguments are outside the value space."""
     def regroup(rows, mk):
         keys = [(r[0], r[1]) for r in rows]
-        if any(t is None for t, _ in keys) or len(set(keys)) != len(keys):
+        if any(t is None for t, _ in keys):  # a repeated (topic, partition) is a value: both payloads are expected
             return None
         return [[t, ps] for t, ps in _regroup([(r[0], mk(r)) for r in rows])]
 
